@@ -13,6 +13,65 @@ import (
 // on the exit that follows the queueing — nor releases it on a path after the
 // append. Releases on the failing exits before the append are what the
 // function is expected to do.
+// queuedByAppend: the values stored in the fields of a struct literal that the
+// call appends to a slice held in a field (nil when the call is not such an append).
+func queuedByAppend(app *ssa.Call) []ssa.Value {
+	bi, ok := app.Call.Value.(*ssa.Builtin)
+	if !ok || bi.Name() != "append" || len(app.Call.Args) != 2 {
+		return nil
+	}
+	if fs, _, _ := fieldChain(app.Call.Args[0]); len(fs) == 0 {
+		return nil
+	}
+	sl, ok := app.Call.Args[1].(*ssa.Slice)
+	if !ok {
+		return nil
+	}
+	arr, ok := sl.X.(*ssa.Alloc)
+	if !ok {
+		return nil
+	}
+	var bases []ssa.Value
+	for _, ref := range *arr.Referrers() {
+		ia, ok := ref.(*ssa.IndexAddr)
+		if !ok {
+			continue
+		}
+		bases = append(bases, ia)
+		for _, r2 := range *ia.Referrers() {
+			if st, ok := r2.(*ssa.Store); ok && st.Addr == ssa.Value(ia) {
+				if u, ok := st.Val.(*ssa.UnOp); ok && u.Op == token.MUL {
+					if tmp, ok := u.X.(*ssa.Alloc); ok {
+						bases = append(bases, tmp)
+					}
+				}
+			}
+		}
+	}
+	var out []ssa.Value
+	for _, base := range bases {
+		if base.Referrers() == nil {
+			continue
+		}
+		for _, r2 := range *base.Referrers() {
+			fa, ok := r2.(*ssa.FieldAddr)
+			if !ok {
+				continue
+			}
+			for _, r3 := range *fa.Referrers() {
+				if st, ok := r3.(*ssa.Store); ok && st.Addr == ssa.Value(fa) {
+					v := st.Val
+					if mi, ok := v.(*ssa.MakeInterface); ok {
+						v = mi.X
+					}
+					out = append(out, v)
+				}
+			}
+		}
+	}
+	return out
+}
+
 func runQueuedReleaseRule(c *Ctx, rule string, min int) {
 	p := c.P
 	n := 0
@@ -24,6 +83,26 @@ func runQueuedReleaseRule(c *Ctx, rule string, min int) {
 		}
 		return v
 	}
+	// helpers that queue their parameters: function -> indexes of the parameters queued
+	queues := map[*ssa.Function][]int{}
+	for _, g := range p.ModuleSSAFuncs() {
+		if g.Origin() != nil || g.Blocks == nil || fnPkgPath(g) != modPath {
+			continue
+		}
+		allInstrs(g, false, func(_ *ssa.Function, ins ssa.Instruction) {
+			app, ok := ins.(*ssa.Call)
+			if !ok {
+				return
+			}
+			for _, v := range queuedByAppend(app) {
+				for k, prm := range g.Params {
+					if v == ssa.Value(prm) {
+						queues[g] = append(queues[g], k)
+					}
+				}
+			}
+		})
+	}
 	for _, fn := range p.ModuleSSAFuncs() {
 		if fn.Origin() != nil || fn.Blocks == nil || fnPkgPath(fn) != modPath {
 			continue
@@ -33,68 +112,35 @@ func runQueuedReleaseRule(c *Ctx, rule string, min int) {
 			if !ok {
 				return
 			}
-			bi, ok := app.Call.Value.(*ssa.Builtin)
-			if !ok || bi.Name() != "append" || len(app.Call.Args) != 2 {
-				return
+			// the queueing point: an append of a literal, or a call of a helper that does it
+			vals := queuedByAppend(app)
+			if vals == nil {
+				if callee := app.Call.StaticCallee(); callee != nil && len(queues[callee]) > 0 {
+					for _, k := range queues[callee] {
+						if k < len(app.Call.Args) {
+							v := app.Call.Args[k]
+							if mi, ok := v.(*ssa.MakeInterface); ok {
+								v = mi.X
+							}
+							vals = append(vals, v)
+						}
+					}
+				}
 			}
-			// the destination is a slice held in a field; the appended element is a literal
-			if fs, _, _ := fieldChain(app.Call.Args[0]); len(fs) == 0 {
-				return
-			}
-			sl, ok := app.Call.Args[1].(*ssa.Slice)
-			if !ok {
-				return
-			}
-			arr, ok := sl.X.(*ssa.Alloc)
-			if !ok {
+			if len(vals) == 0 {
 				return
 			}
 			queued := map[ssa.Value]bool{}
 			releases := false
-			// the element is filled field by field, in place or in a temporary that is then copied whole
-			var bases []ssa.Value
-			for _, ref := range *arr.Referrers() {
-				ia, ok := ref.(*ssa.IndexAddr)
-				if !ok {
-					continue
-				}
-				bases = append(bases, ia)
-				for _, r2 := range *ia.Referrers() {
-					if st, ok := r2.(*ssa.Store); ok && st.Addr == ssa.Value(ia) {
-						if u, ok := st.Val.(*ssa.UnOp); ok && u.Op == token.MUL {
-							if tmp, ok := u.X.(*ssa.Alloc); ok {
-								bases = append(bases, tmp)
-							}
+			for _, v := range vals {
+				queued[cellOf(v)] = true
+				queued[v] = true
+				if mc, ok := v.(*ssa.MakeClosure); ok {
+					allCalls(mc.Fn.(*ssa.Function), false, func(_ *ssa.Function, c2 ssa.CallInstruction) {
+						if strings.HasSuffix(calleeName(c2), ".PutBuffer") || strings.HasSuffix(calleeName(c2), ".Put") {
+							releases = true
 						}
-					}
-				}
-			}
-			for _, base := range bases {
-				if base.Referrers() == nil {
-					continue
-				}
-				for _, r2 := range *base.Referrers() {
-					fa, ok := r2.(*ssa.FieldAddr)
-					if !ok {
-						continue
-					}
-					for _, r3 := range *fa.Referrers() {
-						if st, ok := r3.(*ssa.Store); ok && st.Addr == ssa.Value(fa) {
-							v := st.Val
-							if mi, ok := v.(*ssa.MakeInterface); ok {
-								v = mi.X
-							}
-							queued[cellOf(v)] = true
-							queued[v] = true
-							if mc, ok := v.(*ssa.MakeClosure); ok {
-								allCalls(mc.Fn.(*ssa.Function), false, func(_ *ssa.Function, c2 ssa.CallInstruction) {
-									if strings.HasSuffix(calleeName(c2), ".PutBuffer") || strings.HasSuffix(calleeName(c2), ".Put") {
-										releases = true
-									}
-								})
-							}
-						}
-					}
+					})
 				}
 			}
 			if !releases {
